@@ -773,6 +773,10 @@ def gen_c16b(rng: random.Random) -> Dict[str, Any]:
                 e["cron"] = rng.choice(CRONS)
                 if rng.random() < 0.3:
                     e["cron_offset"] = "Europe/Berlin"
+                if rng.random() < 0.15:
+                    # a recurring entry that also carries a time (e.g. its first run): it is not a one-shot
+                    e["time_us"] = rng.choice(times)
+                    e["tz"] = rng.choice([None, "utc"])
             elif r < 0.8:
                 e["time_us"] = rng.choice(times)
                 e["tz"] = rng.choice([None, "utc"])
@@ -786,7 +790,7 @@ def gen_c16b(rng: random.Random) -> Dict[str, Any]:
                 e["labels"] = {"el": "v"}
             entries.append(e)
         tasks.append({"name": f"lt{ti}", "where": rng.choice(["own", "own", "own", "foreign", "shared"]), "entries": entries,
-                      "extra_labels": rng.choice([{}, {"x": 1}]), "shadowed": rng.random() < 0.2})
+                      "extra_labels": rng.choice([{}, {}, {"x": 1}, {"x": 2}, {"y": "b"}, {"x": 3, "z": [1]}]), "shadowed": rng.random() < 0.2})
     nfire = rng.randint(0, 6)
     return {"mode": "label_source", "tasks": tasks, "fire_seed": rng.randint(0, 10 ** 9), "nfire": nfire,
             # relist: list again before every firing; otherwise fire several schedules of one listing (what the
@@ -796,8 +800,13 @@ def gen_c16b(rng: random.Random) -> Dict[str, Any]:
             "source_on": "shared" if rng.random() < 0.15 else "own"}
 
 
-def _entry_key(task: str, e: Any) -> Any:
-    return (task, e.get("cron"), e.get("time"), jsonable(e.get("args", [])), jsonable(e.get("kwargs", {})), e.get("cron_offset"))
+def _entry_key(task: str, e: Any, task_labels: Any = None) -> Any:
+    # the labels a listed schedule carries: the entry's own labels and the labels of its task (the declared list
+    # itself is compared through the entries)
+    lab = {**e.get("labels", {}), **(task_labels or {})}
+    lab.pop("schedule", None)
+    return (task, e.get("cron"), e.get("time"), jsonable(e.get("args", [])), jsonable(e.get("kwargs", {})), e.get("cron_offset"),
+            sorted((k, repr(x)) for k, x in lab.items()))
 
 
 def run_c16b(spec: Dict[str, Any]) -> "tuple[List[Violation], Any]":
@@ -818,6 +827,7 @@ def run_c16b(spec: Dict[str, Any]) -> "tuple[List[Violation], Any]":
         return None
 
     declared: Dict[str, List[Dict[str, Any]]] = {}
+    task_labels: Dict[str, Dict[str, Any]] = {}
     registered_global: List[str] = []
     for t in spec["tasks"]:
         sched = []
@@ -851,8 +861,10 @@ def run_c16b(spec: Dict[str, Any]) -> "tuple[List[Violation], Any]":
             registered_global.append(t["name"])
             if on_shared:
                 declared[t["name"]] = shadow_sched
+                task_labels[t["name"]] = {}
         if t["where"] == ("shared" if on_shared else "own"):
             declared[t["name"]] = sched
+            task_labels[t["name"]] = dict(t["extra_labels"])
     # the label source of the shared broker lists the schedules declared on shared tasks
     src = LabelScheduleSource(shared if spec.get("source_on") == "shared" else broker)
     sch = TaskiqScheduler(broker, [src])
@@ -863,7 +875,7 @@ def run_c16b(spec: Dict[str, Any]) -> "tuple[List[Violation], Any]":
         for name, sched in declared.items():
             for e in sched:
                 if "cron" in e or "time" in e:
-                    c[repr(_entry_key(name, e))] += 1
+                    c[repr(_entry_key(name, e, task_labels.get(name)))] += 1
         return c
 
     async def main(loop: Any) -> None:
@@ -878,7 +890,8 @@ def run_c16b(spec: Dict[str, Any]) -> "tuple[List[Violation], Any]":
                 if listed is not None:
                     got: Counter = Counter()
                     for s in listed:
-                        got[repr((s.task_name, s.cron, s.time, jsonable(s.args), jsonable(s.kwargs), s.cron_offset))] += 1
+                        got[repr((s.task_name, s.cron, s.time, jsonable(s.args), jsonable(s.kwargs), s.cron_offset,
+                                  sorted((k, repr(x)) for k, x in s.labels.items() if k != "schedule")))] += 1
                     want = expected_multiset()
                     obs["listed"].append(len(listed))
                     if got != want:
@@ -888,6 +901,8 @@ def run_c16b(spec: Dict[str, Any]) -> "tuple[List[Violation], Any]":
                         if s.task_name not in declared:
                             v.append(Violation("label-source-foreign-task", f"listed schedule of foreign task {s.task_name}"))
                     ones = [s for s in listed if s.time is not None and s.cron is None]
+                    # recurring entries fire too (through their cron); nothing is removed for them
+                    ones += [s for s in listed if s.cron is not None and rng.random() < 0.25]
                 else:
                     ones = pending_batch
                 if not spec.get("relist", True) and step > 0 and pending_batch:
@@ -907,7 +922,12 @@ def run_c16b(spec: Dict[str, Any]) -> "tuple[List[Violation], Any]":
                         if len(now_l) != len(sched):
                             v.append(Violation("label-source-removed-other-task", f"firing {s.task_name}@{s.time} changed entries of {name}"))
                         continue
-                    same_time = [e for e in sched if e.get("time") == s.time and "cron" not in e]
+                    if s.cron is not None:
+                        sig = lambda l: [repr((e.get("cron"), e.get("time"), e.get("args"), e.get("kwargs"))) for e in l]  # noqa: E731
+                        if sig(now_l) != sig(sched):
+                            v.append(Violation("label-source-removed-after-recurring", f"firing the recurring entry {s.task_name} cron={s.cron} time={s.time} changed the task's entries {len(sched)} -> {len(now_l)}"))
+                        continue
+                    same_time = [e for e in sched if e.get("time") == s.time]
                     if len(now_l) != len(sched) - 1:
                         v.append(Violation("label-source-remove-count", f"firing {s.task_name}@{s.time}: entries {len(sched)} -> {len(now_l)} (expected one fewer)"))
                         continue
